@@ -495,11 +495,17 @@ Proof.
 Qed.
 
 Lemma io_mrun : forall mps depth ep tr m,
-  run (io_mstep mps depth ep) m tr = map io_out_pack (io_run mps depth m (map (io_in_of ep) tr)).
+  run (io_mstep mps depth ep) m tr = map (fun o => io_out_pack (io_norm o)) (io_run mps depth m (map (io_in_of ep) tr)).
 Proof.
   induction tr as [|w t IH]; intro m; [reflexivity|].
   cbn [run map io_run]. unfold io_mstep at 1. rewrite IH. reflexivity.
 Qed.
+
+Lemma io_norm_idem : forall o, io_norm (io_norm o) = io_norm o.
+Proof. intro o. unfold io_norm. destruct (y_valid o) eqn:E; [rewrite E; reflexivity | reflexivity]. Qed.
+
+Lemma io_norm_data : forall o, (y_data o < 256)%N -> (y_data (io_norm o) < 256)%N.
+Proof. intros o H. unfold io_norm. destruct (y_valid o); [exact H | cbn; lia]. Qed.
 
 Lemma io_out_of_pack : forall o, (y_data o < 256)%N -> io_out_of (io_out_pack o) = o.
 Proof.
@@ -551,7 +557,7 @@ Theorem io_packed_refines : forall mps depth ep, 1 <= mps -> forall tr,
 Proof.
   intros mps depth ep H tr HE. rewrite io_mrun, map_map.
   rewrite <- (iso_refines mps depth H _ HE).
-  apply map_ext_in. intros o Ho. rewrite io_out_of_pack; [reflexivity | exact (io_run_data _ _ _ _ _ Ho)].
+  apply map_ext_in. intros o Ho. rewrite io_out_of_pack; [apply io_norm_idem | apply io_norm_data; exact (io_run_data _ _ _ _ _ Ho)].
 Qed.
 
 (* ------------------------------------------------------------------------------------------ *)
